@@ -112,3 +112,29 @@ Proof.
   intros Hv0 H0 S1 Hg. destruct (sound_table_gaps_nonneg n K v t t' Hv0 H0 S1) as [A [B [C D]]].
   pose proof (ev_gap_value g n t') as E. rewrite Hg in E. destruct g; rewrite E; assumption.
 Qed.
+
+From ICG Require Import SAMMono.
+
+(* C07, SAM approximations (every repetition count) *)
+Theorem sam_gaps_along_reveals n r v K K' t t' a b :
+  SA n v -> Mono n v -> v 0%N == 0 -> MinK n K -> (forall s, K s = true -> K' s = true) ->
+  agrees n t K v -> agrees n t' K' v -> compute_sam n r t = Some a -> compute_sam n r t' = Some b ->
+  gaps_le n b a /\ gaps_nonneg n b /\ gaps_nonneg n a.
+Proof.
+  intros HSA HMo Hv0 HM Hinc Hag Hag' H1 H2.
+  pose proof (MinK_mono n K K' HM Hinc) as HM'.
+  pose proof (sam_monotone_in_knowledge n r v K K' t t' a b HSA HMo Hv0 HM Hinc Hag Hag' H1 H2) as Hmono.
+  pose proof (sam_sound n r K v t a HSA HMo Hv0 HM Hag H1) as S1.
+  pose proof (sam_sound n r K' v t' b HSA HMo Hv0 HM' Hag' H2) as S2.
+  assert (K0 : K 0%N = true) by (destruct HM as [H0 _]; exact H0).
+  assert (K0' : K' 0%N = true) by (apply Hinc; exact K0).
+  assert (U0 : U a 0%N == 0).
+  { destruct (S1 0%N (bounded_0 n)) as [_ [_ [_ [_ Hk]]]]. destruct (Hk K0) as [_ [_ E]]. rewrite E. exact Hv0. }
+  assert (U0' : U b 0%N == 0).
+  { destruct (S2 0%N (bounded_0 n)) as [_ [_ [_ [_ Hk]]]]. destruct (Hk K0') as [_ [_ E]]. rewrite E. exact Hv0. }
+  assert (W : forall S, bounded n S -> 0 <= width a S) by (intros S HS; destruct (S1 S HS) as [_ [_ [A _]]]; unfold width; lra).
+  assert (W' : forall S, bounded n S -> 0 <= width b S) by (intros S HS; destruct (S2 S HS) as [_ [_ [A _]]]; unfold width; lra).
+  split; [|split; apply gaps_nonneg_of_widths; auto].
+  apply gaps_le_of_widths; auto. intros S HS. split; [apply W'; exact HS|].
+  destruct (Hmono S HS) as [A B]. unfold width. lra.
+Qed.
